@@ -56,7 +56,7 @@ CHECKS = {
                 "over-long silences; an exception of each caught class at a solver-chosen read; a failing write; no port / no text. "
                 "Proved per path: one write of the request, nothing escapes, query returns text equal to this request's data line "
                 "(or ''), and exactly the reads belonging to the request are consumed (alignment).",
-        "note": "ASCII; e1,e2 bounded (quick [0,3]u[99,102], thorough [0,102]); data line <= 5/6 symbolic chars; induction over request "
+        "note": "ASCII; e1,e2 bounded (quick [0,2]u[99,102], thorough [0,10]u[95,102]); data line <= 5/6 symbolic chars; induction over request "
                 "sequences is the standard argument from per-request alignment",
         "technique": "symbolic execution of the Python source on symbolic strings with a solver-scripted fake port + SMT obligations per path, counterexample replay",
     },
@@ -68,6 +68,16 @@ CHECKS = {
         "note": "exact-real model of binary64 (tolerance of the statement is 0 here; rounding not analysed); xmin<=xmax, "
                 "ymin<=ymax assumed; at most 400 decisions per path (never hit)",
         "technique": "symbolic execution of the Python source on z3 real terms + SMT (QF_NRA) obligations per path, counterexample replay",
+    },
+    "C13": {
+        "text": "spatial_grid.Index construction, removal and nearest() are executed on paths whose end points and the query are unbounded "
+                "symbolic reals, for concrete grid sizes, both reversal settings and every removal subset; per path z3 (QF_NRA) proves "
+                "the construction invariant (each live end in exactly one cell, the cell given by the independently restated half-open "
+                "rule, lookup agrees, adjacency = 3x3 neighbourhood) and the nearest() contract (live id, start unless reversal, no live end "
+                "of the query's neighbourhood - or anywhere when it is empty - strictly closer; true nearest within one cell width).",
+        "note": "path ends <= 2 (quick) / <= 3 (thorough) and bins <= 3/4; exact-real model of the bin arithmetic; non-zero extent assumed; "
+                "sequences of removals covered by running nearest() after every removal subset",
+        "technique": "symbolic execution of the Python source on z3 real terms (solver-guided concretisation of bin indices) + SMT (QF_NRA) obligations per path, counterexample replay",
     },
     "C14": {
         "text": "rtree.Index construction and intersection are executed on N boxes plus a query box with all 4N+4 coordinates unbounded "
